@@ -854,6 +854,15 @@ class exists_elim(Method):
             state.set_line(id.incr_id(i), 'variable', args=(var.name, var.T), prevs=[])
         state.set_line(id.incr_id(len(vars)), 'assume', args=body, prevs=[])
 
+        # The lines that follow, and the lines of their subproofs, now
+        # depend on the new assumption.
+        def add_hyp(item):
+            if item.rule not in ('assume', 'variable') and item.th is not None:
+                item.th = Thm(item.th.prop, item.th.hyps, body)
+            if item.subproof:
+                for sub_item in item.subproof.items:
+                    add_hyp(sub_item)
+
         # Find the intros at the end, append exists fact and new variables
         # and assumptions to prevs.
         new_intros = [prevs[0]] + [id.incr_id(i) for i in range(len(vars)+1)]
@@ -898,10 +907,10 @@ class exists_elim(Method):
                     item.args = args[:n_later] + [exists_prop] + args[n_later:]
                     item.prevs = item.prevs[:pos] + new_intros + item.prevs[pos:]
                     break
-                elif item.rule not in ('assume', 'variable'):
-                    state.set_line(id.incr_id(i), item.rule, args=item.args, prevs=item.prevs, \
-                                   th=Thm(item.th.prop, item.th.hyps, body))
+                else:
+                    add_hyp(item)
             i += 1
+        state.check_proof(compute_only=True)
 
 
 @register_method('forall_elim')
